@@ -154,6 +154,17 @@ func (e *Exec) eval(ctx *evalCtx, x Expr, want types.Type) Val {
 			}
 			v := e.eval(ctx, x.X, want)
 			return Val{T: []string{app("bvneg", v.T[0])}, Typ: v.Typ}
+		case "*":
+			// *p: the value the pointer p refers to
+			v := e.eval(ctx, x.X, nil)
+			if v.Typ == nil {
+				fail("dereference of untyped value %s", exprString(x.X))
+			}
+			pt, ok := under(v.Typ).(*types.Pointer)
+			if !ok {
+				fail("dereference of non-pointer %s", exprString(x.X))
+			}
+			return e.ctxLoad(ctx, e.derefLoc(ctx.st, v, pt.Elem()))
 		}
 	case *EBin:
 		return e.evalBin(ctx, x, want)
